@@ -29,8 +29,9 @@ Lemma get_add_seen f n e S : get f n (add_seen e S) = get f n S.
 Proof. reflexivity. Qed.
 Lemma update_conclusion_other id i c S f n : id <> n -> get f n (update_conclusion id i c S) = get f n S.
 Proof.
-  intros H. unfold update_conclusion. destruct c; [reflexivity|].
-  destruct (seenb _ _ _ _ _); [reflexivity|]. rewrite get_add_seen. rewrite !get_set_other_node; auto.
+  intros H. unfold update_conclusion. destruct c; [reflexivity|]. destruct (Nat.eqb id (rootsel S)).
+  - destruct (seenb _ _ _ _ _); [reflexivity|]. rewrite get_add_seen. rewrite !get_set_other_node; auto.
+  - rewrite !get_set_other_node; auto.
 Qed.
 
 Lemma yield_upd_other (P : nat -> Prop) id ie c k S f n :
@@ -116,11 +117,21 @@ Proof.
 Qed.
 
 Lemma uc_out id i c S : out (update_conclusion id i c S) = out S.
-Proof. unfold update_conclusion. destruct c; [reflexivity|]. destruct (seenb _ _ _ _ _); reflexivity. Qed.
+Proof.
+  unfold update_conclusion. destruct c; [reflexivity|]. destruct (Nat.eqb id (rootsel S)); [|reflexivity].
+  destruct (seenb _ _ _ _ _); reflexivity.
+Qed.
+Lemma uc_rootsel id i c S : rootsel (update_conclusion id i c S) = rootsel S.
+Proof.
+  unfold update_conclusion. destruct c; [reflexivity|]. destruct (Nat.eqb id (rootsel S)); [|reflexivity].
+  destruct (seenb _ _ _ _ _); reflexivity.
+Qed.
 Lemma uc_field id i c S f n : f <> DYN -> get f n (update_conclusion id i c S) = get f n S.
 Proof.
-  intros H1. unfold update_conclusion. destruct c; [reflexivity|]. destruct (seenb _ _ _ _ _); [reflexivity|].
-  rewrite get_add_seen. rewrite !get_set_diff by (left; congruence). reflexivity.
+  intros H1. unfold update_conclusion. destruct c; [reflexivity|]. destruct (Nat.eqb id (rootsel S)).
+  - destruct (seenb _ _ _ _ _); [reflexivity|].
+    rewrite get_add_seen. rewrite !get_set_diff by (left; congruence). reflexivity.
+  - rewrite !get_set_diff by (left; congruence). reflexivity.
 Qed.
 
 (* ---- the coverage memory only grows, by entries of the current element at the nodes of the tree ---- *)
@@ -137,6 +148,7 @@ Proof. intros H H1 e He. destruct (H1 e He) as [H2|[H2 H3]]; [left; exact H2|rig
 Lemma uc_grow id i c S : grow (fun n => n = id) i S (update_conclusion id i c S).
 Proof.
   unfold update_conclusion. destruct c; [apply grow_eq; reflexivity|].
+  destruct (Nat.eqb id (rootsel S)); [|apply grow_eq; reflexivity].
   destruct (seenb _ _ _ _ _); [apply grow_eq; reflexivity|].
   intros e [<-|He]; [right; split; reflexivity|left; exact He].
 Qed.
@@ -160,7 +172,9 @@ Lemma uc_dyn id i c S :
   get DYN id (update_conclusion id i c S) = union [] c.
 Proof.
   intros Hf Hs Hd. unfold update_conclusion. destruct c as [|x c]; [exact Hd|].
-  rewrite (seenb_fresh _ _ _ _ _ Hs). rewrite get_add_seen. rewrite get_set_same. rewrite Hd. reflexivity.
+  destruct (Nat.eqb id (rootsel S)).
+  - rewrite (seenb_fresh _ _ _ _ _ Hs). rewrite get_add_seen. rewrite get_set_same. rewrite Hd. reflexivity.
+  - rewrite get_set_same. rewrite Hd. reflexivity.
 Qed.
 
 Lemma incl_step (i : nat) A B C : incl A (i :: B) -> incl B (i :: C) -> incl A (i :: C).
@@ -176,17 +190,19 @@ Definition inT (t : tree) : nat -> Prop := fun n => In n (ids t).
 
 (* the store handed to the continuation *)
 Definition Rel (t : tree) (i : nat) (e : elem) (S S1 : store) : Prop :=
-  out S1 = out S /\
+  (out S1 = out S /\
   (forall f n, ~ In n (ids t) -> get f n S1 = get f n S) /\
   grow (inT t) i S S1 /\
   getb FLAG (root_id t) S1 = fst (pe t e) /\
-  concl_now t S1 = snd (pe t e).
+  concl_now t S1 = snd (pe t e)) /\
+  rootsel S1 = rootsel S.
 (* the final store, relative to the store the continuation returned *)
 Definition Fin (t : tree) (S' Sf : store) : Prop :=
-  out Sf = out S' /\
+  (out Sf = out S' /\
   (forall f n, ~ In n (ids t) -> get f n Sf = get f n S') /\
   seen Sf = seen S' /\
-  (forall n, In n (ids t) -> get DYN n Sf = []).
+  (forall n, In n (ids t) -> get DYN n Sf = [])) /\
+  rootsel Sf = rootsel S'.
 
 Lemma root_in t : In (root_id t) (ids t).
 Proof. destruct t; simpl; auto. Qed.
@@ -222,11 +238,11 @@ Section Bound.
     induction t as [id cs c | id s l IHl r IHr]; intros Hnf Hnd i e k S Hfr Hdc Hk.
     - (* leaf *)
       exists (setb FLAG id (negb (holds e cs)) S). split.
-      + repeat split.
+      + split; [|reflexivity]. repeat split.
         * intros f n Hn. apply get_setb_diff. right. intro; subst; apply Hn; simpl; auto.
         * apply grow_eq. reflexivity.
         * simpl. apply getb_setb_same.
-      + simpl. repeat split; auto. intros n [<-|[]]. 
+      + simpl. split; [|reflexivity]. repeat split; auto. intros n [<-|[]]. 
         rewrite (Hk (i, e) _ _ DYN id) by (red; simpl; auto).
         rewrite get_setb_diff by (left; fne). apply Hdc. simpl; auto.
     - (* selector *)
@@ -277,21 +293,21 @@ Section Bound.
             + rewrite get_set_diff by auto. exact H3.
             + rewrite (yield_upd_other (inT l) id _ _ k _ f0 n0 HklK Hp0 H).
               rewrite get_set_diff by auto. exact H3. }
-        destruct (IHl Hnl Hndl i e KK S Hfrl Hdcl HKK) as [S1l [[Ho1 [Hout1 [Hseen1 [Hfl1 Hcl1]]]] Hfinl]].
+        destruct (IHl Hnl Hndl i e KK S Hfrl Hdcl HKK) as [S1l [[[Ho1 [Hout1 [Hseen1 [Hfl1 Hcl1]]]] Hrs1] Hfinl]].
         destruct (pe l e) as [fl cl] eqn:Epl. simpl in Hfl1, Hcl1, Hfinl.
         destruct fl.
         * (* left false: passed through *)
           assert (Epe : pe (Node id SExc l r) e = (true, [])) by (simpl; rewrite Epl; reflexivity).
           exists (setb FLAG id true S1l). unfold Rel, Fin. rewrite Epe. simpl fst. simpl snd. split.
-          -- repeat split.
+          -- split; [|exact Hrs1]. repeat split.
              ++ exact Ho1.
              ++ intros f n Hn. rewrite get_setb_diff by (right; intro; subst; apply Hn; simpl; auto).
                 apply Hout1. intro; apply Hn; simpl; right; apply in_or_app; auto.
              ++ apply (grow_mono (inT l)); [exact Hml|exact Hseen1].
              ++ simpl root_id. apply getb_setb_same.
              ++ change (get DYN id (setb FLAG id true S1l) = []). rewrite get_setb_diff by (left; fne). rewrite Hout1 by assumption. exact Hdid.
-          -- unfold KK in Hfinl. simpl in Hfinl. destruct Hfinl as [Hf1 [Hf2 [Hf3 Hf4]]].
-             repeat split.
+          -- unfold KK in Hfinl. simpl in Hfinl. destruct Hfinl as [[Hf1 [Hf2 [Hf3 Hf4]]] Hf5].
+             split; [|exact Hf5]. repeat split.
              ++ exact Hf1.
              ++ intros f n Hn. apply Hf2. intro; apply Hn; simpl; right; apply in_or_app; auto.
              ++ exact Hf3.
@@ -327,9 +343,9 @@ Section Bound.
             assert (Hne : id <> n1) by (intro; subst; contradiction).
             rewrite (yield_upd_other (inT r) id _ _ k _ f1 n1 HkrK Hp1 Hne).
             apply get_setb_diff; auto. }
-          destruct (IHr Hnr Hndr i e K' S2 Hfrr Hdcr HK') as [S1r [[Ho2 [Hout2 [Hseen2 [Hfl2 Hcl2]]]] Hfinr]].
+          destruct (IHr Hnr Hndr i e K' S2 Hfrr Hdcr HK') as [S1r [[[Ho2 [Hout2 [Hseen2 [Hfl2 Hcl2]]]] Hrs2] Hfinr]].
           destruct (pe r e) as [fr cr] eqn:Epr. simpl in Hfl2, Hcl2, Hfinr.
-          destruct Hfinl as [Hf1 [Hf2 [Hf3 Hf4]]].
+          destruct Hfinl as [[Hf1 [Hf2 [Hf3 Hf4]]] Hf5].
           assert (Hrootl : forall f n, In n (ids l) -> get f n S1r = get f n S1l).
           { intros f n Hn. assert (n <> id) by (intro; subst; contradiction).
             rewrite Hout2 by (exact (Hlr n Hn)). apply HS2. assumption. }
@@ -338,10 +354,10 @@ Section Bound.
           -- (* exception does not hold: the rule's own conclusion *)
              assert (Epe : pe (Node id SExc l r) e = (false, union [] cl)) by (simpl; rewrite Epl, Epr; reflexivity).
              unfold K' in Hfinr at 1. cbv iota in Hfinr.
-             destruct Hfinr as [Hg1 [Hg2 [Hg3 Hg4]]].
+             destruct Hfinr as [[Hg1 [Hg2 [Hg3 Hg4]]] Hg5].
              assert (Hry : getb RY id (ev W r (Some (i, e)) K' S2) = false).
              { unfold getb. rewrite Hg2 by assumption. rewrite Hidr1. unfold S2, setb. rewrite get_set_same. reflexivity. }
-             rewrite Hry in Hf1, Hf2, Hf3.
+             rewrite Hry in Hf1, Hf2, Hf3, Hf5.
              set (S4 := set RY id (get RY id (setb FLAG id false S1l)) (ev W r (Some (i, e)) K' S2)) in *.
              assert (G4 : grow (fun n => inT l n \/ inT r n) i S S4).
              { apply grow_trans with S1l; [apply (grow_mono (inT l)); [intros n H; left; exact H|exact Hseen1]|].
@@ -365,9 +381,9 @@ Section Bound.
                - rewrite HS4id by fne. exact Hdid. }
              assert (HUflag : getb FLAG id U = false).
              { unfold getb, U. rewrite uc_field by fne. exact HS4flag. }
-             unfold yield_upd in Hf1, Hf2, Hf3, Hf4. cbn [fst] in Hf1, Hf2, Hf3, Hf4. fold U in Hf1, Hf2, Hf3, Hf4. rewrite HUflag in Hf1, Hf2, Hf3.
+             unfold yield_upd in Hf1, Hf2, Hf3, Hf4, Hf5. cbn [fst] in Hf1, Hf2, Hf3, Hf4, Hf5. fold U in Hf1, Hf2, Hf3, Hf4, Hf5. rewrite HUflag in Hf1, Hf2, Hf3, Hf5.
              exists U. unfold Rel, Fin. rewrite Epe. simpl fst. simpl snd. split.
-             ++ repeat split.
+             ++ split; [|unfold U; rewrite uc_rootsel; unfold S4; cbn [rootsel set setb]; rewrite Hg5; unfold K'; cbv beta iota; rewrite Hrs2; unfold S2; cbn [rootsel set setb]; exact Hrs1]. repeat split.
                 ** unfold U. rewrite uc_out. unfold S4. rewrite out_set. rewrite Hg1, Ho2. unfold S2, setb.
                    rewrite !out_set. exact Ho1.
                 ** intros f n Hn.
@@ -380,7 +396,7 @@ Section Bound.
                    exact (grow_mono _ _ _ _ _ Hmi (uc_grow id i cl S4)).
                 ** exact HUflag.
                 ** exact HUdyn.
-             ++ repeat split.
+             ++ split; [|rewrite Hf5; reflexivity]. repeat split.
                 ** rewrite Hf1. apply out_set.
                 ** intros f n Hn.
                    assert (Hn1 : n <> id) by (intro; subst; apply Hn; simpl; auto).
@@ -415,13 +431,13 @@ Section Bound.
              assert (HUflag : getb FLAG id U = false).
              { unfold getb, U. rewrite uc_field by fne. exact HUflag0. }
              unfold yield_upd in Hfinr. cbn [fst] in Hfinr. fold U in Hfinr. rewrite HUflag in Hfinr.
-             destruct Hfinr as [Hg1 [Hg2 [Hg3 Hg4]]].
+             destruct Hfinr as [[Hg1 [Hg2 [Hg3 Hg4]]] Hg5].
              assert (Hry : getb RY id (ev W r (Some (i, e)) K' S2) = true).
              { unfold getb. rewrite Hg2 by assumption. rewrite get_set_diff by (left; fne). rewrite Hkid.
                unfold U. rewrite uc_field by fne. unfold S1r', setb. rewrite get_set_same. reflexivity. }
-             rewrite Hry in Hf1, Hf2, Hf3.
+             rewrite Hry in Hf1, Hf2, Hf3, Hf5.
              exists U. unfold Rel, Fin. rewrite Epe. simpl fst. simpl snd. split.
-             ++ repeat split.
+             ++ split; [|unfold U; rewrite uc_rootsel; unfold S1r'; cbn [rootsel set setb]; rewrite Hrs2; unfold S2; cbn [rootsel set setb]; exact Hrs1]. repeat split.
                 ** unfold U. rewrite uc_out. unfold S1r', setb. rewrite out_set. rewrite Ho2. unfold S2, setb.
                    rewrite !out_set. exact Ho1.
                 ** intros f n Hn.
@@ -434,7 +450,7 @@ Section Bound.
                    exact (grow_mono _ _ _ _ _ Hmi (uc_grow id i cr S1r')).
                 ** exact HUflag.
                 ** exact HUdyn.
-             ++ repeat split.
+             ++ split; [|rewrite Hf5; cbn [rootsel set setb]; rewrite Hg5; reflexivity]. repeat split.
                 ** rewrite Hf1. rewrite out_set. rewrite Hg1. apply out_set.
                 ** intros f n Hn.
                    assert (Hn1 : n <> id) by (intro; subst; apply Hn; simpl; auto).
@@ -466,12 +482,12 @@ Section Bound.
               rewrite !get_setb_diff by auto. reflexivity.
           - rewrite (sel_post_other (inT l) SAlt id l r k _ _ f0 n0 HklK Hp0 Hne).
             rewrite !get_setb_diff by auto. reflexivity. }
-        destruct (IHl Hnl Hndl i e KK S Hfrl Hdcl HKK) as [S1l [[Ho1 [Hout1 [Hseen1 [Hfl1 Hcl1]]]] Hfinl]].
+        destruct (IHl Hnl Hndl i e KK S Hfrl Hdcl HKK) as [S1l [[[Ho1 [Hout1 [Hseen1 [Hfl1 Hcl1]]]] Hrs1] Hfinl]].
         destruct (pe l e) as [fl cl] eqn:Epl. simpl in Hfl1, Hcl1, Hfinl.
         assert (Hrl : root_id l <> id) by (intro E; apply Hidl; rewrite <- E; apply root_in).
         assert (Hrr : root_id r <> id) by (intro E; apply Hidr; rewrite <- E; apply root_in).
         unfold KK in Hfinl at 1. cbv beta iota zeta in Hfinl. unfold binding in *.
-        destruct Hfinl as [Hf1 [Hf2 [Hf3 Hf4]]].
+        destruct Hfinl as [[Hf1 [Hf2 [Hf3 Hf4]]] Hf5].
         destruct fl.
         * (* left false: try the alternative *)
           match type of Hf1 with context [ev W r (Some (i, e)) ?K1 ?SS] => set (K' := K1) in *; set (S2 := SS) in * end.
@@ -494,7 +510,7 @@ Section Bound.
             assert (Hne : id <> n1) by (intro; subst; contradiction).
             rewrite (sel_post_other (inT r) SAlt id l r k _ _ f1 n1 HkrK Hp1 Hne).
             rewrite !get_setb_diff by auto. reflexivity. }
-          destruct (IHr Hnr Hndr i e K' S2 Hfrr Hdcr HK') as [S1r [[Ho2 [Hout2 [Hseen2 [Hfl2 Hcl2]]]] Hfinr]].
+          destruct (IHr Hnr Hndr i e K' S2 Hfrr Hdcr HK') as [S1r [[[Ho2 [Hout2 [Hseen2 [Hfl2 Hcl2]]]] Hrs2] Hfinr]].
           destruct (pe r e) as [fr cr] eqn:Epr. simpl in Hfl2, Hcl2, Hfinr.
           assert (Hidr1 : forall f, get f id S1r = get f id S2) by (intros f; apply Hout2; assumption).
           unfold K' in Hfinr at 1. cbv beta in Hfinr.
@@ -520,9 +536,9 @@ Section Bound.
           -- (* nothing fires *)
              assert (Epe : pe (Node id SAlt l r) e = (true, [])) by (simpl; rewrite Epl, Epr; reflexivity).
              cbn [negb] in Hfinr. cbv iota in Hfinr. rewrite HScflag in Hfinr.
-             destruct Hfinr as [Hg1 [Hg2 [Hg3 Hg4]]].
+             destruct Hfinr as [[Hg1 [Hg2 [Hg3 Hg4]]] Hg5].
              exists Sc. unfold Rel, Fin. rewrite Epe. simpl fst. simpl snd. split.
-             ++ repeat split.
+             ++ split; [|unfold Sc; cbn [rootsel set setb]; rewrite Hrs2; unfold S2; cbn [rootsel set setb]; exact Hrs1]. repeat split.
                 ** unfold Sc, setb. rewrite !out_set. rewrite Ho2. unfold S2, setb. rewrite !out_set. exact Ho1.
                 ** intros f n Hn.
                    assert (Hn1 : n <> id) by (intro; subst; apply Hn; simpl; auto).
@@ -532,7 +548,7 @@ Section Bound.
                 ** exact (grow_mono _ _ _ _ _ Hmlr Gc).
                 ** exact HScflag.
                 ** change (get DYN id Sc = []). rewrite HScid by fne. rewrite HS2id by fne. exact Hdid.
-             ++ repeat split.
+             ++ split; [|rewrite Hf5; cbn [rootsel set setb]; rewrite Hg5; reflexivity]. repeat split.
                 ** rewrite Hf1. unfold setb at 1. rewrite out_set. rewrite Hg1. apply out_set.
                 ** intros f n Hn.
                    assert (Hn1 : n <> id) by (intro; subst; apply Hn; simpl; auto).
@@ -559,9 +575,9 @@ Section Bound.
              assert (HUflag : getb FLAG id U = false).
              { unfold getb, U. rewrite uc_field by fne. exact HScflag. }
              rewrite HUflag in Hfinr.
-             destruct Hfinr as [Hg1 [Hg2 [Hg3 Hg4]]].
+             destruct Hfinr as [[Hg1 [Hg2 [Hg3 Hg4]]] Hg5].
              exists U. unfold Rel, Fin. rewrite Epe. simpl fst. simpl snd. split.
-             ++ repeat split.
+             ++ split; [|unfold U; rewrite uc_rootsel; unfold Sc; cbn [rootsel set setb]; rewrite Hrs2; unfold S2; cbn [rootsel set setb]; exact Hrs1]. repeat split.
                 ** unfold U. rewrite uc_out. unfold Sc, setb. rewrite !out_set. rewrite Ho2. unfold S2, setb.
                    rewrite !out_set. exact Ho1.
                 ** intros f n Hn.
@@ -574,7 +590,7 @@ Section Bound.
                    exact (grow_mono _ _ _ _ _ Hmi (uc_grow id i cr Sc)).
                 ** exact HUflag.
                 ** exact HUdyn.
-             ++ repeat split.
+             ++ split; [|rewrite Hf5; cbn [rootsel set setb]; rewrite Hg5; reflexivity]. repeat split.
                 ** rewrite Hf1. unfold setb at 1. rewrite out_set. rewrite Hg1. apply out_set.
                 ** intros f n Hn.
                    assert (Hn1 : n <> id) by (intro; subst; apply Hn; simpl; auto).
@@ -602,9 +618,9 @@ Section Bound.
           { unfold getb. rewrite HSa by assumption. exact Hfl1. }
           assert (Hcla : concl_now l Sa = cl).
           { rewrite <- Hcl1. apply concl_now_same. intros f n Hn. apply HSa. intro; subst; contradiction. }
-          unfold sel_post in Hf1, Hf2, Hf3. cbn [fst] in Hf1, Hf2, Hf3.
-          rewrite Hlflag in Hf1, Hf2, Hf3. cbn [negb] in Hf1, Hf2, Hf3. cbv iota in Hf1, Hf2, Hf3.
-          rewrite Hcla in Hf1, Hf2, Hf3.
+          unfold sel_post in Hf1, Hf2, Hf3, Hf5. cbn [fst] in Hf1, Hf2, Hf3, Hf5.
+          rewrite Hlflag in Hf1, Hf2, Hf3, Hf5. cbn [negb] in Hf1, Hf2, Hf3, Hf5. cbv iota in Hf1, Hf2, Hf3, Hf5.
+          rewrite Hcla in Hf1, Hf2, Hf3, Hf5.
           set (U := update_conclusion id i cl Sa) in *.
           assert (HUdyn : get DYN id U = union [] cl).
           { apply uc_dyn; [exact HSaflag| |].
@@ -612,9 +628,9 @@ Section Bound.
             - rewrite HSaid by fne. exact Hdid. }
           assert (HUflag : getb FLAG id U = false).
           { unfold getb, U. rewrite uc_field by fne. exact HSaflag. }
-          rewrite HUflag in Hf1, Hf2, Hf3.
+          rewrite HUflag in Hf1, Hf2, Hf3, Hf5.
           exists U. unfold Rel, Fin. rewrite Epe. simpl fst. simpl snd. split.
-          -- repeat split.
+          -- split; [|unfold U; rewrite uc_rootsel; unfold Sa; cbn [rootsel set setb]; exact Hrs1]. repeat split.
              ++ unfold U. rewrite uc_out. unfold Sa, setb. rewrite !out_set. exact Ho1.
              ++ intros f n Hn.
                 assert (Hn1 : n <> id) by (intro; subst; apply Hn; simpl; auto).
@@ -624,7 +640,7 @@ Section Bound.
                 exact (grow_mono _ _ _ _ _ Hmi (uc_grow id i cl Sa)).
              ++ exact HUflag.
              ++ exact HUdyn.
-          -- repeat split.
+          -- split; [|rewrite Hf5; reflexivity]. repeat split.
              ++ rewrite Hf1. apply out_set.
              ++ intros f n Hn.
                 assert (Hn1 : n <> id) by (intro; subst; apply Hn; simpl; auto).
@@ -676,7 +692,7 @@ Section Run.
     assert (Hfr : fresh t j S).
     { intros e0 He0 Hn Hx. specialize (Hlt e0 He0 Hn). lia. }
     destruct (ev_bound W t Hnf Hnd j e (topk t) S Hfr Hdc (topk_keeps t _))
-      as [S1 [[Ho [Hout [Hseen [Hfl Hcl]]]] [Hf1 [Hf2 [Hf3 Hf4]]]]].
+      as [S1 [[[Ho [Hout [Hseen [Hfl Hcl]]]] _] [[Hf1 [Hf2 [Hf3 Hf4]]] _]]].
     rewrite IH.
     - simpl flat_map. rewrite rev_app_distr, <- app_assoc. f_equal.
       unfold binding in *. rewrite Hf1. unfold topk, rows1. simpl snd. simpl fst.
